@@ -366,8 +366,15 @@ func (m *mstate) runLeaf(n *NodeSpec) (string, string) {
 func (m *mstate) itemLane(n *NodeSpec, v, i int, it *Item, budget, wait int, timed bool) *MItem {
 	mi := &MItem{}
 	idesc := itemTok(n.ID, v, i)
+	execArg := ""
 	if it.Pay == "erritem" && (n.PrepShape == "" || n.PrepShape == "results") {
 		idesc = "ER(" + idesc + "E)"
+		if n.style(1) == 'A' {
+			execArg = "nil" // an Any-style exec function sees the (nil) value of the error Result
+		}
+	}
+	if execArg == "" {
+		execArg = idesc
 	}
 	t := func() int64 {
 		if timed {
@@ -390,7 +397,7 @@ func (m *mstate) itemLane(n *NodeSpec, v, i int, it *Item, budget, wait int, tim
 			m.cancelled = true
 		}
 		tok := fmt.Sprintf("n%dv%di%de%d", n.ID, v, i, a)
-		mi.Lane = append(mi.Lane, MEv{Kind: "exec_start", N: n.ID, V: v, A: a, I: i + 1, S1: idesc, T: t()})
+		mi.Lane = append(mi.Lane, MEv{Kind: "exec_start", N: n.ID, V: v, A: a, I: i + 1, S1: execArg, T: t()})
 		if timed {
 			m.sleep(o.SleepMs)
 		}
